@@ -39,6 +39,16 @@
                          the closure of the selection has its final report (an exception that cuts the run short -- an
                          uptodate callable raising, a cycle found while dispatching, KeyboardInterrupt / SystemExit from
                          an action -- must show in the exit code: 3, or the exception propagates)
+      C19_text           (wave 5) character-exact: what the real ConsoleReporter / ExecutedOnlyReporter / ZeroReporter /
+                         ErrorOnlyReporter wrote to outstream (and, driven directly, to sys.stderr) equals the text of
+                         Model/ReportText.lean for the reporter calls that really happened -- (a) the classes driven
+                         directly with generated call sequences (harness/c19text.py: real Task / TaskFailed / TaskError /
+                         UnmetDependency ... objects, names with a leading / inner underscore, tasks without actions,
+                         custom titles, report=False, two failures of one task, runtime errors, complete_run anywhere,
+                         failure_verbosity 0/1/2 x task verbosity 0/1/2); (b) every end-to-end run with a console-family
+                         reporter (the tee records the calls with name / title / bool(actions) and, at complete_run,
+                         executed / verbosity / captured out+err of the failed tasks).  Plus `console_decode` evaluated on
+                         the real text: the `.  ` / `-- ` / `!! ` lines read back give exactly what happened.
 case-format extensions of C19 (on top of runlib's): case['verbosity'] (DOIT_CONFIG verbosity), task['c19'] =
     {utd_raises, base_exc, prints, verbosity} (see _wrap_task_dict); such cases are outside the run model M1 when an
     exception is planted: the base acceptance is skipped for them (counted), every monitor still applies.
@@ -81,7 +91,9 @@ META = {
     'technique': 'Lean 4 invariant proofs over the small-step run model (all schedules) extended with the final_result '
                  'fold, the reporter state machines (console family, JsonReporter bookkeeping dict) and MReporter '
                  'forwarding; differential correspondence of every built-in reporter\'s real output and of the callback '
-                 'stream against the model; Lean monitors of the full statement on every implementation trace',
+                 'stream against the model; Lean monitors of the full statement on every implementation trace; '
+                 'wave 5: the four text reporter classes as pure functions call sequence -> lines (Model/ReportText.lean), '
+                 'theorems for all call sequences, character-exact differential test against the real classes',
     'design_ref': '§5 C19, §4 M1, §6.3, §6.4',
     'level_text': 'Machine-checked: in every reachable state of the run model (serial, thread, process; any schedule) '
                   'final_result equals a function of the multiset of failure kinds reported (0 none, 1 only TaskFailed, '
@@ -92,7 +104,11 @@ META = {
                   'MRunner + MReporter as one transition system with the real FIFO result queue (forwarded execute_task '
                   'reports are never lost, duplicated or overtaken by the result of their task); for every disciplined '
                   'stream the JsonReporter bookkeeping never raises and lists each processed task exactly once with '
-                  'its result.  Tied to doit on every run: real runs with all five built-in reporters x three runners, '
+                  'its result.  Text reporters (all call sequences, all task tables): the progress lines of ConsoleReporter decode to exactly '
+                  'the sequence of visible (task, executed | up-to-date | ignored); self.failures / the header lines / the '
+                  'complete_run blocks list exactly the failures with report=True, each once, in order; ExecutedOnlyReporter = '
+                  'ConsoleReporter minus the skip lines; ZeroReporter writes nothing to outstream, ErrorOnlyReporter exactly one '
+                  'header+message per reported failure.  Tied to doit on every run: real runs with all five built-in reporters x three runners, '
                   'real output parsed and compared with the Lean reporter models, the statement evaluated on every trace.',
     'level_note': 'Trusted: Lean kernel; doitdrv; the Python harness (runlib generator / scheduler / token controller, '
                   'the tee subclass of the built-in reporters, the output parsers).  json.dump validity and message '
@@ -114,14 +130,21 @@ META = {
             'reporter through a [REPORTER] plugin section + -r (12%), `actions` rejected only at execution time (4%), values '
             'the DB codec cannot encode (3%), runlib calc_first tasks (p_calc_then_fail 0.15); exhaustive tier: every outcome assignment of '
             'small fixed graphs x --continue x reporter, and every completion order of small thread cases; '
+            'wave 5 (text_unit:*): 3000 (quick) generated reporter-call sequences of 1-15 calls over 1-5 tasks drawn from names '
+            'with leading / inner / trailing underscores, 25% without actions, 20% not executed, verbosity 0/1/2, custom / empty / '
+            'numeric titles, captured out/err, every BaseFail subclass with report on/off and with a caught exception, runtime and '
+            'cleanup errors, complete_run anywhere, reporter class and failure_verbosity drawn uniformly; corpus/C19text; '
             'non-trivial = something got a final report and the case has an edge or a non-success outcome; distinct = '
             'distinct rendered case + reporter + schedule',
-    'assumptions': ['task names do not start with "_" (the console reporters hide such tasks)',
-                    'task verbosity 0 and failure_verbosity 0 (the harness\' DOIT_CONFIG)',
-                    'actions write nothing to stdout/stderr'],
+    'assumptions': ['end-to-end cases: task names do not start with "_" (names with underscores, hidden tasks and call '
+                    'sequences the runner never produces are covered by the directly driven reporter classes, text_unit:*)',
+                    'text model: what complete_run reads from a task (executed, verbosity, captured out/err) is one value '
+                    'per task (the value at complete_run); task names are non-empty'],
     'trusted': ['deterministic thread scheduler and token controller of harness/runlib.py',
                 'tee subclass of the built-in reporter classes (records, then calls the real method)',
-                'parsers of the console lines and of the JSON document'],
+                'parsers of the console lines and of the JSON document',
+                'harness/c19text.py: construction of the real Task / BaseFail objects from a generated call sequence, '
+                'CallLog (what the tee records of each call for the text model)'],
     'models': ['M1'],
 }
 
